@@ -118,6 +118,8 @@ def build_inputs(spec, n, d, lo):
         for nm, (i, j) in zip(['kxx', 'kxy', 'kxz', 'kyy', 'kyz', 'kzz'], ij):
             inp[nm] = ex['Kdown3'][i, j].copy()
         for i, c in enumerate('xyz'):
+            if c == 'x' and spec['member'].get('shift_x0'):
+                continue            # beta^x = 0 identically: simply not supplied
             inp['beta' + c] = ex['betaup3'][i].copy()
             inp['dtbeta' + c] = ex['dtbetaup3'][i].copy()
         inp['alpha'] = ex['alpha'].copy()
